@@ -491,9 +491,9 @@ public:
    /// Removes LPColBase%s with numbers \p nums, where \p n is the length of the array \p nums, and stores the index permutation in array \p perm.
    void remove(const int nums[], int n, int* perm)
    {
-      SVSetBase<R>::remove(nums, n, perm);
-
       int j = num();
+
+      SVSetBase<R>::remove(nums, n, perm);
 
       for(int i = 0; i < j; ++i)
       {
